@@ -311,7 +311,7 @@ func genC10(w *out.W, tier string, mu *sync.Mutex) []job {
 		label string
 	}
 	var extra []dcase
-	dirShapes := [][]int{{2, 2}, {3, 1}, {1, 3}}
+	dirShapes := [][]int{{2, 2}, {3, 1}}
 	if tier == "thorough" {
 		dirShapes = [][]int{{2, 2}, {3, 1}, {1, 3}, {3, 3}, {2, 1, 2}, {1, 2, 2}}
 	}
